@@ -259,7 +259,16 @@ func (drap *draPlugin) deallocateHandlerFn(_ *framework.Session) func(event *fra
 	}
 }
 
-func (drap *draPlugin) OnSessionClose(_ *framework.Session) {}
+// OnSessionClose drops every allocation the session assumed in memory. Nothing of it is needed by the next session
+// (claims of pods that were bound travel in their bind requests and are assumed again from there), and an informer
+// update that lands on top of an assumed allocation would replace it without touching the manager's set of allocated
+// devices, which only follows unallocated <-> allocated transitions: the devices the binder really gave the claim
+// would then look free to the next session.
+func (drap *draPlugin) OnSessionClose(_ *framework.Session) {
+	if drap.manager != nil {
+		drap.restoreAllClaims()
+	}
+}
 
 func (drap *draPlugin) allocateResourceClaim(task *pod_info.PodInfo, podClaim *v1.PodResourceClaim, node *v1.Node) error {
 	claimName, err := resources.GetResourceClaimName(task.Pod, podClaim)
